@@ -30,6 +30,7 @@ fn main() {
             let thorough = tier == "thorough";
             match family.as_str() {
                 "C01" => gen_pred::gen_c01(&mut out, thorough, seed),
+                "C14" => gen_pred::gen_c14(&mut out, thorough, seed),
                 "C13" => gen_pred::gen_c13(&mut out, thorough, seed),
                 "C15" => gen_sent::gen_c15(&mut out, thorough, seed),
                 "C07" => gen_bin::gen_c07(&mut out, thorough, seed),
@@ -89,6 +90,7 @@ fn run_case(line: &str, fails: &mut Vec<(String, String)>) -> String {
         ["H", cfg, preds, ops] => pred::run_h(cfg, preds, ops, "", fails),
         ["H", cfg, preds, ops, oracle] => pred::run_h(cfg, preds, ops, oracle, fails),
         [k, ..] if matches!(*k, "B" | "RS" | "RX" | "RF" | "WF") => bin::run(&toks, fails),
+        ["E", ..] => pred::run_e(&toks, fails),
         _ => "bad-case".into(),
     }
 }
